@@ -37,6 +37,7 @@ partial def c18Line (line : String) : String :=
     match j.toNat?, m.toNat?, (match v with
         | "valid" => some Verdict.valid | "invalid" => some Verdict.invalid | "error" => some Verdict.error
         | "ctxerror" => some Verdict.error
+        | "trueerror" => some Verdict.error   -- (true, err): the error decides
         | _ => none) with
     | some j, some m, some v => observe ⟨none, fun i => if i = j then v else .valid⟩ 0 m
     | _, _, _ => "bad-op"
